@@ -95,6 +95,9 @@ def run_property(pid, tier, seed, workers=None, quiet=False):
     os.makedirs(rundir, exist_ok=True)
     os.makedirs(REPLAYS, exist_ok=True)
     os.makedirs(EVID, exist_ok=True)
+    for fn in os.listdir(REPLAYS):  # stale replay files of an earlier run of the same configuration
+        if fn.startswith(f"{pid}_{tier}_s{seed}_case"):
+            os.unlink(os.path.join(REPLAYS, fn))
 
     n_shards = max(1, min(len(cases), workers * int(getattr(mod, "SHARDS_PER_WORKER", 3))))
     shards = _shards(cases, n_shards)
@@ -251,6 +254,9 @@ def run_property(pid, tier, seed, workers=None, quiet=False):
                 break
             out.append(f"[{pid}] violation: {v['what']} mechanism={v.get('mechanism')} detail={json.dumps(v.get('detail'))[:400]}")
             out.append(f"VIOLATION property={pid} replay={path}")
+        kinds = collections.Counter((v["what"], v.get("mechanism")) for _r, v in unlisted)
+        for (w, mch), n in kinds.most_common(25):
+            out.append(f"[{pid}]   {n:5d} x {w}  [mechanism={mch}]")
         out.append(f"[{pid}] {len(unlisted)} unlisted violation(s) in {len(seen_cases)} case(s)")
     elif inconclusive_run:
         rc = 2
